@@ -29,7 +29,8 @@ CONSTANTS Names,         \* the family's variable names, e.g. {"a"} or {"a","b"}
           MaxDepth,      \* nesting of open constructs
           GlobalSets,    \* which global layers bind every name: a set of subsets of LayerSet
           NilVals,       \* BOOLEAN: binders may also bind nil (a binding to nil still ends the lookup)
-          Interrupts     \* BOOLEAN: break / continue inside loops
+          Interrupts,    \* BOOLEAN: break / continue inside loops
+          Leaves         \* BOOLEAN: one shared partial `leaf` (it only reads every name) may be included / rendered any number of times
 
 LayerSet == {"rargs", "matter", "tglobals", "eglobals"}
 LayerOrder == <<"rargs", "matter", "tglobals", "eglobals">>
@@ -79,10 +80,16 @@ LastCopy(fs) == IF \E j \in 1..Len(fs) : fs[j].op \in CopyOps
 ForDepth(fs) == Cardinality({j \in (LastCopy(fs) + 1)..Len(fs) : fs[j].op = "for"})
 
 (* what a step observes afterwards: every name, whether `forloop` is visible and whether it has a parentloop *)
-Obs(c, d, fs) == [reads |-> [n \in Names |-> Lookup(c, d, n)],
+Obs(c, d, fs) == [fs |-> fs, reads |-> [n \in Names |-> Lookup(c, d, n)],
                   fl |-> IF ForDepth(fs) >= 1 THEN "1" ELSE "",
                   pl |-> IF ForDepth(fs) >= 2 THEN "1" ELSE ""]
-Rec(op, n, v, o) == [op |-> op, n |-> n, v |-> v, reads |-> o.reads, fl |-> o.fl, pl |-> o.pl]
+(* C19: a read of n is EXEMPT from "must be reported as a global" when it is inside a construct binding n (any open frame, *)
+(* also across partial boundaries - the conservative reading) or preceded in source order by an assignment to n        *)
+AssignOps == {"assign", "capture", "incr", "decr"}
+Exempt(fs, op, m) == {n \in Names : (\E j \in 1..Len(fs) : fs[j].n = n /\ fs[j].op \in PushOps \cup {"render", "call", "callnoarg"})
+                                     \/ (\E i \in 1..Len(prog) : prog[i].op \in AssignOps /\ prog[i].n = n)
+                                     \/ (op \in AssignOps /\ m = n)}
+Rec(op, n, v, o) == [op |-> op, n |-> n, v |-> v, reads |-> o.reads, fl |-> o.fl, pl |-> o.pl, ex |-> Exempt(o.fs, op, n)]
 Step(rec) == prog' = Append(prog, rec)
 K == Len(prog) + 1                       \* index of the step being taken: makes every bound value unique
 Val(tag) == tag \o ToString(K)
@@ -168,6 +175,18 @@ Close ==
         /\ Step(Rec("close", f.op, "", Obs(cs[Len(cs)], Len(cs), nf)))
   /\ UNCHANGED <<glob, status>>
 
+(* the shared partial `leaf` (body: the reads) included in the current context, or rendered in a copy of it *)
+IncludeLeaf ==
+  /\ Leaves /\ CanStep /\ ~Cur.disabled
+  /\ Step(Rec("incleaf", Absent, "", Obs(Cur, Len(ctxs), frames)))
+  /\ UNCHANGED <<glob, ctxs, frames, status>>
+RenderLeaf ==
+  /\ Leaves /\ CanStep
+  /\ LET inherited == [i \in 1..Len(Cur.gargs) |-> [Cur.gargs[i] EXCEPT !.own = FALSE]]
+         c2 == NewCtx("render", inherited)
+     IN Step(Rec("renderleaf", Absent, "", Obs(c2, Len(ctxs) + 1, Append(frames, Frame("render0", Absent, "")))))
+  /\ UNCHANGED <<glob, ctxs, frames, status>>
+
 (* break / continue (the loops of this family have one item, so both end the loop): every construct opened *)
 (* since the innermost loop of the current context is abandoned and its pushed namespace must be popped    *)
 InnermostLoop == CHOOSE j \in (LastCopy(frames) + 1)..Len(frames) :
@@ -191,6 +210,7 @@ Next == \/ \E op \in PushOps, n \in Names : OpenPush(op, n)
         \/ \E op \in {"incr", "decr"}, n \in Names : Count(op, n)
         \/ Close
         \/ Interrupt
+        \/ IncludeLeaf \/ RenderLeaf
 
 Init == /\ glob \in GlobalSets
         /\ ctxs = <<NewCtx("top", <<>>)>>
@@ -252,8 +272,15 @@ GlobalsQuick == {{}, {"eglobals"}, {"tglobals", "eglobals"}, {"matter", "tglobal
 GlobalsAll == SUBSET LayerSet
 GlobalsNone == {{}}
 GlobalsEnv == {{"eglobals"}}
+GlobalsArgs == {{"rargs"}}
+
+(* C19: root names a render reads from the render arguments / globals at a non-exempt reference: static analysis must report them as globals *)
+MustGlobals == {n \in Names : \E i \in 1..Len(prog) : prog[i].reads[n].layer \in LayerSet /\ n \notin prog[i].ex}
+(* the same when only the shared partial `leaf` contains references (the main template and the other partials read nothing) *)
+MustGlobalsLeaf == {n \in Names : \E i \in 1..Len(prog) : prog[i].op \in {"incleaf", "renderleaf"}
+                                                            /\ prog[i].reads[n].layer \in LayerSet /\ n \notin prog[i].ex}
 -----------------------------------------------------------------------------
 (* every closed program (and every program stopped by an error) is emitted; each step carries what every name must read *)
 Emit == (status # "ok" \/ (frames = <<>> /\ prog # <<>>))
-          => PrintT(ToJson([glob |-> glob, prog |-> prog, status |-> status]))
+          => PrintT(ToJson([glob |-> glob, prog |-> prog, status |-> status, mustGlobals |-> MustGlobals, mustGlobalsLeaf |-> MustGlobalsLeaf]))
 =============================================================================
